@@ -211,10 +211,16 @@ def r3_resolver(ctx):
                 ok = any(x.endswith("rev") for x in names) and any(x.endswith("find_map") for x in names)
                 ctx.ob("R3", "resolve_prefix:innermost-first", ok, "bindings are searched from the innermost (iter().rev().find_map): %s" % names, config=cfg)
                 r = ret_of(p)
-                ctx.ob("R3", "resolve_prefix:exhausted", call_is(r, "unwrap_or_else") , "no binding found falls back to maybe_unknown(prefix)", config=cfg)
-            fb = F.closure("quick_xml::name::NamespaceResolver::resolve_prefix::{closure#1}")
-            ok = fb is not None and any(name_is(callee_of(t)[0] or "", "maybe_unknown") for _, t in fb.calls())
-            ctx.ob("R3", "resolve_prefix:fallback", ok, "the fallback is maybe_unknown", config=cfg)
+                found = decision_on(p, lambda t: t[0] == "discr" and call_is(t[1], "find_map"))
+                if found == 0:
+                    ctx.ob("R3", "resolve_prefix:exhausted", call_is(r, "maybe_unknown"), "no binding found falls back to maybe_unknown(prefix): returns %s" % sym.show(r, 3)[:80], config=cfg)
+                elif found == 1:
+                    ctx.ob("R3", "resolve_prefix:found", r[0] == "pl" and call_is(r[1], "find_map"), "a binding found by the search is the result", config=cfg)
+                else:
+                    # the search result is handed to a combinator the engine does not model: it must be unwrap_or_else(maybe_unknown)
+                    fb = [F.closure(a[1]) for a in (r[3] if r[0] == "call" else ()) if a[0] == "closure"]
+                    ok = call_is(r, "unwrap_or_else") and any(b2 is not None and any(name_is(callee_of(t)[0] or "", "maybe_unknown") for _, t in b2.calls()) for b2 in fb)
+                    ctx.ob("R3", "resolve_prefix:exhausted", ok, "no binding found falls back to maybe_unknown(prefix)", config=cfg)
         mu = ctx.body(F, "name::NamespaceResolver::maybe_unknown", "R3")
         if mu is not None:
             for p in ctx.paths(mu):
